@@ -1,5 +1,5 @@
 """C03 — grouping preserves each feature's order (contiguity, monotone transform)."""
-from harness import k_api, k_ordinal, k_quantiles, k_transform
+from harness import k_api, k_categorical, k_ordinal, k_quantiles, k_transform
 
 
 def obligations(tier):
@@ -10,6 +10,7 @@ def obligations(tier):
                          param_grid=[dict(min_freq=0.25, sort_by="cramerv", max_n_mod=3, output_dtype="float", dropna=True)] if quick else None),
         k_transform.obligation(tier, {"C03"}, "O3.1 transform of a quantitative feature is a total, monotone step function (first group whose leader >= x; leader = largest boundary)"),
         k_quantiles.obligation(tier, {"C03"}, "O3.2 quantile boundaries are sorted observed values followed by the +inf sentinel", ["sorted", "free"]),
+        k_categorical.obligation(tier, {"C03"}, "O3.4 categorical modalities are ordered by training target rate (NaN last)"),
         k_ordinal.obligation(tier, {"C03"}, "O3.3 ordinal groups are contiguous runs of the supplied ranking, in ranking order"),
     ]
 
